@@ -185,7 +185,7 @@ class C10(Scenario):
     prop = "C10"
     level = "fault_enumeration"
     profiles = ["misdelivery"]
-    budgets = {"quick": 1200, "thorough": 20000}
+    budgets = {"quick": 8000, "thorough": 150000}
     wall_caps = {"quick": 110, "thorough": 1500}
     block = 16
     rule = ("one run = one base case (tree T, accumulator state in {empty, filled, merged}, own data for the foreign "
